@@ -18,9 +18,13 @@ RULE = (
     "(standard and error), SectionOutput (of each, nesting depth 1-2) and section-IO objects, probing each public callable "
     "once un-gated; the full table method x verbosity {0,1,2,4} x flags {None,0..7} x quiet x formatter {ANSI forced, ANSI on "
     "an ANSI stream, plain} is executed, one fresh object per cell (sections pre-filled un-gated before clear/overwrite); "
-    "monotonicity is re-checked on the recorded table. non-trivial = cell with flags not in (None,0) or quiet; distinct by cell."
+    "monotonicity is re-checked on the recorded table. Variant cells repeat the gate with other message texts ('', newline, "
+    "two lines) and inside an indentation scope: a closed gate lets nothing through, an open gate exactly what the un-gated "
+    "call writes. Pair cells keep two I/O objects and a section alive with different verbosity / quiet settings and write the "
+    "same flag word to each in turn: every output is gated by its own settings. non-trivial = cell with flags not in "
+    "(None,0) or quiet; distinct by cell."
 )
-BOUND = {"quick": "complete table, section depth 1", "thorough": "complete table, section depth 1 and 2, plus pre-filled sibling sections"}
+BOUND = {"quick": "complete table (19168 cells) + 69184 variant cells + 360 pair cells, section depth 1", "thorough": "the same with section depth 1 and 2"}
 ASSUMPTIONS = [
     "lowest(flags) = VERBOSE if bit 1, else VERY_VERBOSE if bit 2, else DEBUG if bit 4, else NORMAL; flags None = 0",
     "a method that writes nothing when un-gated in a configuration (e.g. clear() on a plain section) is not a writing method there",
